@@ -566,7 +566,7 @@ func (ex *Exec) run(fr *Frame, st *State, b, prev *ssa.BasicBlock, pre map[*ssa.
 					}
 					res = tu
 				}
-				if fr == ex.topFrame {
+				if ex.topFrame != nil && fr.act == ex.topFrame.act {
 					ex.Returns = append(ex.Returns, Exit{Guard: append([]Lit(nil), st.Guard...), Results: res, St: st, Pos: t.Pos(), Instr: t})
 				}
 				return Outcome{Ret: &RetAt{St: st, Results: res}, RetCond: sym.ConstBool(true)}
